@@ -244,28 +244,37 @@ fn same_class(sig: &str, target: &str) -> bool {
 /// Generic tape shrinking (DESIGN 2.6): delete spans, zero, halve, decrement -- keep a candidate iff
 /// the run still produces the same signature. Bounded by `budget` candidate executions.
 pub fn minimize(prop: &str, tier: Tier, lanes: Vec<Vec<u64>>, signature: &str, lifted: &[String], budget: usize) -> (Vec<Vec<u64>>, usize) {
-    let mut best = lanes;
-    let mut spent = 0usize;
-    let mut try_candidate = |cand: &Vec<Vec<u64>>, spent: &mut usize| -> bool {
-        *spent += 1;
+    // first: cut every lane to what is actually consumed
+    let start = {
+        let mut ch = Choices::from_tape(lanes.clone());
+        let mut counters = Counters::default();
+        let o = RunOpts { prop, tier, record: false, outcomes: false, lifted };
+        let out = run_once(&o, &mut ch, &mut counters);
+        if matches!(&out.violation, Some(v) if same_class(&v.signature, signature)) {
+            out.lanes
+        } else {
+            return (lanes, 1);
+        }
+    };
+    let mut test = |cand: &Vec<Vec<u64>>| -> bool {
         let mut ch = Choices::from_tape(cand.clone());
         let mut counters = Counters::default();
         let o = RunOpts { prop, tier, record: false, outcomes: false, lifted };
         let out = run_once(&o, &mut ch, &mut counters);
         matches!(&out.violation, Some(v) if same_class(&v.signature, signature))
     };
-    // first: cut every lane to what is actually consumed
-    {
-        let mut ch = Choices::from_tape(best.clone());
-        let mut counters = Counters::default();
-        let o = RunOpts { prop, tier, record: false, outcomes: false, lifted };
-        let out = run_once(&o, &mut ch, &mut counters);
-        if matches!(&out.violation, Some(v) if same_class(&v.signature, signature)) {
-            best = out.lanes;
-        } else {
-            return (best, spent);
-        }
-    }
+    minimize_with(start, budget, &mut test)
+}
+
+/// the shrinking loop itself; `test` says whether a candidate tape still fails the same way
+/// (in-process above; out-of-process for crash-type violations, see parent::minimize_isolated)
+pub fn minimize_with(lanes: Vec<Vec<u64>>, budget: usize, test: &mut dyn FnMut(&Vec<Vec<u64>>) -> bool) -> (Vec<Vec<u64>>, usize) {
+    let mut best = lanes;
+    let mut spent = 0usize;
+    let mut try_candidate = |cand: &Vec<Vec<u64>>, spent: &mut usize| -> bool {
+        *spent += 1;
+        test(cand)
+    };
     let mut improved = true;
     while improved && spent < budget {
         improved = false;
